@@ -168,6 +168,82 @@ def verdict (strict : Bool) (script : List Ev) (calls : Option (List JCall)) (an
   | some i :: _ => s!"BAD@{i}"
   | _ => "BAD"
 
+/-! ### request-level call letters `r` (`poll_recv_data`) and `s` (`split()`) -/
+
+/-- at most one `s`: the halves of a split request stream cannot be split again -/
+def parseCallsR (s : String) : Option (List CallR) :=
+  if s.isEmpty then none else
+  let cs := s.toList.mapM (fun c => if c == 'r' then some CallR.recv else if c == 's' then some CallR.split else none)
+  cs.bind (fun l => if (l.filter (· == CallR.split)).length > 1 then none else some l)
+
+/-- what `client::RequestStream::poll_recv_data` answers (error mapping of
+    `handle_frame_stream_error_on_request_stream` / `got_frame_error`) -/
+def renderROut : FOut → String
+  | .data b => "D:" ++ toHex b
+  | .none => "N"
+  | .pending => "P"
+  | .frame _ => "E:conn:H3_FRAME_UNEXPECTED"
+  | .errProto .malformed => "E:conn:H3_FRAME_ERROR"
+  | .errProto (.unsupported _) => "E:conn:H3_FRAME_UNEXPECTED"
+  | .errProto (.settings _) => "E:conn:H3_SETTINGS_ERROR"
+  | .errEnd => "E:conn:H3_FRAME_ERROR"
+  | .errQuic c => s!"E:quic:{c}"
+  | .panic => "X"
+
+def flushData (acc : Varint.Bytes) : List String := if acc.isEmpty then [] else ["D:" ++ toHex acc]
+
+open H3.Spec.Framing in
+/-- What a reader of the message body must see of the token sequence of `observe`: the payload
+    bytes of the DATA frames in order (frame boundaries are not visible to it), then the end — a
+    clean end or a HEADERS frame ends the body, a cut-off or malformed frame is H3_FRAME_ERROR, an
+    HTTP/2 frame type H3_FRAME_UNEXPECTED; any other frame is some connection error (WHICH one is
+    C03's / C04's / C13's business).  `none` = outside this specification. -/
+def reqView : Varint.Bytes → List Tok → Option (List String)
+  | acc, [] => some (flushData acc)
+  | acc, .frame (.data _) :: r => reqView acc r
+  | acc, .data b :: r => reqView (acc ++ b) r
+  | acc, .partialData b :: r => reqView (acc ++ b) r
+  | acc, .frame (.headers _) :: _ => some (flushData acc ++ ["N"])
+  | acc, .frame _ :: _ => some (flushData acc ++ ["E:conn:*"])
+  | acc, .okSettings :: _ => some (flushData acc ++ ["E:conn:*"])
+  | acc, .badSettings :: _ => some (flushData acc ++ ["E:conn:*"])
+  | acc, .none_ :: _ => some (flushData acc ++ ["N"])
+  | acc, .pending :: _ => some (flushData acc ++ ["P"])
+  | acc, .truncated :: _ => some (flushData acc ++ ["E:conn:H3_FRAME_ERROR"])
+  | acc, .malformed :: _ => some (flushData acc ++ ["E:conn:H3_FRAME_ERROR"])
+  | acc, .h2 _ :: _ => some (flushData acc ++ ["E:conn:H3_FRAME_UNEXPECTED"])
+  | _, .outside :: _ => none
+
+open H3.Spec.Framing in
+/-- the specification for a body reader that has read the stream to its end (or as far as it has come) -/
+def specLineR (script : List Ev) : String :=
+  if script.any (fun e => match e with | .reset _ => true | _ => false) then "?" else
+  let upto := script.takeWhile (· != .fin)
+  let w := scriptBytes upto
+  let ending := if script.contains .fin then Ending.fin else Ending.open_
+  let toks := observe (w.length + 1) w ending
+  let alts : List (List Tok) :=
+    match toks.reverse with
+    | .truncated :: .partialData bs :: pre =>
+      (List.range (bs.length + 1)).map (fun k =>
+        pre.reverse ++ (if k = 0 then [] else [Tok.data (bs.take k)]) ++ [Tok.truncated])
+    | _ => [toks]
+  match alts.mapM (reqView []) with
+  | none => "?"
+  | some vs => " || ".intercalate (vs.map (fun v => " ".intercalate v))
+
+/-- `fs calls <script> <calls over r, s>` -/
+def requestCalls (script : List Ev) (calls : List CallR) : String :=
+  let x := runR {} script calls
+  let m := " ".intercalate ((normalise x.outs).map renderROut)
+  -- the specification speaks about a reader that has come to the end of what there is: a terminal
+  -- answer was given, or the script is used up, the last call has answered Pending and so would one more
+  let quiet := x.script.isEmpty &&
+    (match x.outs.getLast? with | some .pending => true | _ => false) &&
+    (match (recvData (recvFuel x.st []) x.st []).out with | .pending => true | _ => false)
+  let sp := if x.ended || quiet then specLineR script else "?"
+  m ++ " ## " ++ sp
+
 def renderDec : H3.Frame.DecRes → String
   | .frame f n => s!"ok {renderFrame f} {n}"
   | .unknown n => s!"unknown {n}"
@@ -209,6 +285,12 @@ def handleDec (strict : Bool) (h : String) : String :=
   | some bs => renderDec (decode bs) ++ " ## " ++ specDec strict bs
 
 def handleCalls (strict : Bool) (sc cs : String) : String :=
+  -- call letters `r`/`s`: `poll_recv_data` on a real `RequestStream` and `split()` (builder aC13)
+  if !cs.isEmpty && cs.toList.all (fun c => c == 'r' || c == 's') then
+    match parseScript sc, parseCallsR cs with
+    | some script, some calls => requestCalls script calls
+    | _, _ => "bad-op"
+  else
   match parseScript sc, parseCalls cs, parseJCalls cs with
   | some script, some calls, some jcalls =>
     -- `runCallsF = runCalls` (`H3.FS.runCallsF_eq`, `C02_driver_runs_the_model`)
